@@ -38,6 +38,16 @@ TEXT = {
         "level_text": "Exploration of message histories incl. repeated REQ/CLOSE, server CLOSED and sessions ending with open subscriptions; every quiescent point is compared exactly (gauges, per-type and per-kind counters) and pass-through is pointer-equal.",
         "level_note": "Trusted: the tally model in harness/handlers/c19_test.go. The harness's own barrier CLOSE / marker NOTICE messages are part of the tallies.",
     },
+    "C08": {
+        "technique": "property-based testing (rapid) with a harness-owned deterministic scheduler: scripted child handlers, atomic steps client_send / child_recv / child_emit with NOTICE markers through the merger's own FIFO; REQ model checked per step",
+        "level_text": "Exploration of generated interleavings of child outputs with each other and with client input; because the harness owns every producer the generated schedule is executed exactly (and shrinks), so 'EOSE in the step that completes the set' is an exact safety check.",
+        "level_note": "Trusted: the REQ model in harness/handlers/merge_test.go; the FIFO argument of the marker technique (one forwarding goroutine per child, one consumer, NOTICE passes unchanged). Children emit for a subscription only after receiving its REQ; ids re-issued only after their merged EOSE.",
+    },
+    "C09": {
+        "technique": "property-based testing (rapid) with the same deterministic scheduler: children's OK / COUNT replies released in generated interleavings with several requests (and repeated ids) in flight; aggregation model checked per step and at quiescence",
+        "level_text": "Exploration: per step an aggregated reply must appear exactly when the last child answered the oldest open request of that id (verdict = all accepted, rejection text starts with the first rejecting child's reason, COUNT = max); at quiescence #OK(id) == #EVENT(id).",
+        "level_note": "Trusted: the aggregation model in merge_test.go. 'First rejecting child' accepted as lowest index or earliest in time.",
+    },
     "C10": {
         "technique": "property-based testing (rapid): grammar-generated wire texts with near-miss mutations against a no-panic / completeness / decode-encode-decode oracle, value round trips for all 14 types, repository corpus replay; native go fuzz target in the thorough tier",
         "level_text": "Exploration: tens of thousands of generated and mutated JSON texts per run go through ParseClientMsg and json.Unmarshal of all 14 exported types (no panic, complete value, idempotent re-decode), and generated values of every type are round-tripped; thorough adds a coverage-guided fuzz campaign with the same oracle inside the target.",
